@@ -93,6 +93,15 @@ def _make_local():
     return LPlain, LDC, LBox
 LPlain, LDC, LBox = _make_local()
 @dataclasses.dataclass
+class Tree:
+    # recursive, and the anonymous type that closes the cycle (list[Tree]) sits BELOW another anonymous type
+    index: dict[str, list["Tree"]] = dataclasses.field(default_factory=dict)
+    label: str = ""
+@dataclasses.dataclass
+class Chain:
+    nxt: typing.Optional["Chain"] = None
+    links: tuple["Chain", ...] = ()
+@dataclasses.dataclass
 class FinalFree(typing.Generic[T]):
     item: typing.Final[T]
     n: int = 0
@@ -117,7 +126,9 @@ LEAVES = ["int", "str", "typing.Any", "object", "list", "dict", "tuple", "set", 
           # function-local classes (used once here, twice in the `reuse` family)
           "LPlain", "LDC", "LBox",
           # named tuples made by the collections factory: no annotations at all, the fields are pass-through positions
-          "PlainNT", "PairNT"]
+          "PlainNT", "PairNT",
+          # recursive user classes (members of U): every container of them builds, whatever anonymous type their fields share with it
+          "Tree", "Chain"]
 UNARY = ["list[{0}]", "typing.List[{0}]", "tuple[{0}, ...]", "dict[str, {0}]", "typing.Optional[{0}]", "typing.Sequence[{0}]",
          "collections.abc.Mapping[str, {0}]", "frozenset[{0}]", "G[{0}]"]
 BINARY = ["tuple[{0}, {1}]", "typing.Union[{0}, {1}]", "dict[{0}, {1}]"]
@@ -137,7 +148,8 @@ def annotations(ctx):
                                                    "tuple[list[tuple[{0}, ...]], dict[str, tuple[{0}, ...]]]",
                                                    "tuple[list[list[{0}]], dict[str, list[{0}]]]",
                                                    "tuple[dict[str, typing.Optional[{0}]], list[typing.Optional[{0}]]]")]
-    out = d1 + d2 + reuse + ["tuple[()]", "tuple[tuple[int, ...], tuple[str, ...]]", "tuple[typing.Any, ...]", "list[T]", "dict[str, T]"]
+    out = d1 + d2 + reuse + ["list[Tree]", "dict[str, list[Tree]]", "typing.Optional[list[Tree]]", "G[list[Tree]]", "tuple[Chain, ...]", "typing.Optional[Chain]",
+                             "dict[str, tuple[Chain, ...]]", "list[typing.Optional[Chain]]", "tuple[()]", "tuple[tuple[int, ...], tuple[str, ...]]", "tuple[typing.Any, ...]", "list[T]", "dict[str, T]"]
     if ctx.tier == "quick" and ctx.scale == 1.0:
         r.shuffle(d2)
         out = d1 + d2[:700] + out[len(d1) + len(d2):]     # (keeps the `reuse` family and the fixed extras)
